@@ -32,8 +32,18 @@ Covered(ps, bal) ==
 
 Commit(ps, bal) == IF Covered(ps, bal) THEN [ok |-> TRUE, posts |-> ps] ELSE [ok |-> FALSE, posts |-> <<>>]
 
+\* wide lists: more than ten distinct accounts and amounts in one request (the script generated for them
+\* has two-digit variable numbers): a fan-out from world, a chain, and both assets alternating
+W(i) == "w" \o ToString(i)
+WideBal(n) == [acc \in {"a", "b"} \cup {W(i) : i \in 1..n} |-> [as \in Assets |-> 0]]
+FanOut(n) == [i \in 1..n |-> Post("world", W(i), "USD", i)]
+Chain(n) == [i \in 1..n |-> Post(IF i = 1 THEN "world" ELSE W(i - 1), W(i), "USD", n + 1 - i)]
+Mixed(n) == [i \in 1..n |-> Post("world", W((i % 3) + 1), IF i % 2 = 0 THEN "USD" ELSE "EUR", i)]
+Short(n) == [i \in 1..n |-> Post(IF i = 1 THEN "world" ELSE W(i - 1), W(i), "USD", IF i = n THEN n ELSE n - 1)]   \* the last hop overdraws
+WideCases == {[posts |-> f, bal |-> WideBal(Len(f))] : f \in {FanOut(11), FanOut(14), Chain(11), Chain(13), Mixed(12), Short(12)}}
+
 VARIABLE c
-Cases == {[posts |-> ps, bal |-> b] : ps \in Lists(MaxLen) \ {<<>>}, b \in Bals}
+Cases == {[posts |-> ps, bal |-> b] : ps \in Lists(MaxLen) \ {<<>>}, b \in Bals} \cup WideCases
 Init == c \in Cases
 Next == UNCHANGED c
 Spec == Init /\ [][Next]_c
